@@ -289,7 +289,9 @@ MarkNontrivial(e) == e.ra.ok /\ UnionMarks(e.a) # {}
 (***************************************************************************)
 NumK1 == {K(TNum, n) : n \in Nums}
 BoolK1 == {BoolV(TRUE), BoolV(FALSE)}
-KeyNums == {NumV(0), NumV(4), NumV(8), NumV(-4), NumV(2), NumV(-2), NumV(-1), NumV(6), Null(TNum)}
+KeyNums == {NumV(0), NumV(4), NumV(8), NumV(-4), NumV(2), NumV(-2), NumV(-1), NumV(6), Null(TNum),
+            \* whole numbers far beyond any length (2^63-1, 2^64, 2^64+1, 10^30) and an infinity: absent keys
+            NumK([lm |-> "i64max"]), NumK([lm |-> "u64maxp"]), NumK([lm |-> "u64maxpp"]), NumK([lm |-> "e30"]), K(TNum, PInf)}
 KeyStrs == {StrV(<<"a">>), StrV(<<"b">>), StrV(<<"a", "b">>), Null(TStr)}
 IndexableT == {t \in VT : t.k \in {"list", "tuple", "map"}}
 SetT == {t \in VT : t.k = "set"}
